@@ -56,6 +56,9 @@ pub fn alphabet(name: &str) -> Vec<f64> {
         "tiny" => vec![1e-9, 2e-9, 3e-9, 7e-9, -7e-9, 1e-11],
         "large" => vec![1e20, 2e20, 3e20, 7e20, -7e20, 1e18],
         // the small end of the stated value domain (|x| >= 1e-30)
+        // ill-conditioned data (kappa ~ 1e11) at both ends of the value domain
+        "offbig" => vec![9e29, 9e29 * (1. + 1e-11), 9e29 * (1. + 3e-11), 9e29 * (1. - 2e-11), 9e29 * (1. + 7e-11)],
+        "offsmall" => vec![1e-30, 1e-30 * (1. + 1e-11), 1e-30 * (1. + 3e-11), 1e-30 * (1. + 5e-11), 1e-30 * (1. + 9e-11)],
         "tiny20" => vec![1e-20, 3e-20, -2e-20, 7e-21, 1e-30],
         "large25" => vec![1e25, 3e25, -2e25, 7e24, 1e30],
         "q07" => vec![-1., 0., 0.5, 2., 7.],
